@@ -412,3 +412,55 @@ pub fn read_replay(path: &str) -> serde_json::Value {
         std::process::exit(2)
     })
 }
+
+
+/// The nesting depth at which the library under test starts to refuse (toml_edit's `LIMIT`, 80 today), observed on
+/// four reference constructs - nested arrays, nested inline tables, a dotted key at the top level and a dotted key
+/// inside an inline table - and taken as the LARGEST of the four: a change that lowers the limit for one construct
+/// only still shows, a change of the constant itself moves every expectation along with it.  Searched up to 4096 on
+/// a large stack; "never refuses" counts as 4096.
+pub fn calibrated_limit() -> usize {
+    static L: std::sync::OnceLock<usize> = std::sync::OnceLock::new();
+    *L.get_or_init(|| {
+        std::thread::Builder::new()
+            .stack_size(2 << 30)
+            .spawn(|| {
+                let builders: [fn(usize) -> String; 4] = [
+                    |d| format!("k = {}{}\n", "[".repeat(d), "]".repeat(d)),
+                    |d| format!("k = {}1{}\n", "{a = ".repeat(d), "}".repeat(d)),
+                    |d| format!("{} = 1\n", vec!["a"; d].join(".")),
+                    |d| format!("k = {{ {} = 1 }}\n", vec!["a"; d].join(".")),
+                ];
+                let mut best = 1usize;
+                for (i, b) in builders.iter().enumerate() {
+                    let rejected = |d: usize| b(d).parse::<toml_edit::DocumentMut>().is_err();
+                    // first refused depth: doubling, then bisection (refusal is monotone in the depth)
+                    let mut hi = 1usize;
+                    while hi < 4096 && !rejected(hi) {
+                        hi *= 2;
+                    }
+                    let first = if hi >= 4096 && !rejected(4096) {
+                        4096
+                    } else {
+                        let (mut lo, mut hi) = (hi / 2, hi.min(4096));
+                        while lo + 1 < hi {
+                            let mid = (lo + hi) / 2;
+                            if rejected(mid) {
+                                hi = mid;
+                            } else {
+                                lo = mid;
+                            }
+                        }
+                        hi
+                    };
+                    // (a dotted key of d segments inside an inline table opens 1 + (d - 1) = d containers)
+                    let _ = i;
+                    best = best.max(first);
+                }
+                best
+            })
+            .expect("spawn")
+            .join()
+            .unwrap_or(80)
+    })
+}
